@@ -46,8 +46,6 @@ class ForeverBreakWriteHandler(AbstractWriteHandler):
     def write_content(self) -> Vertex | None:
         """Print a break and end"""
         logger.debug("Handling a break_loop; (%s)...", self.start_vertex["op"])
-        self.decompiler.source_map_add_opcode_for_edge(self.start_vertex["op"].offset)
-        self.decompiler.write_stmnt("break_loop;")
         exits = self.start_vertex.out_edges()
         if len(exits) == 1:
             if len(self.decompiler.forever_start_handler_stack) < 1:
@@ -56,6 +54,8 @@ class ForeverBreakWriteHandler(AbstractWriteHandler):
                 # the loop
                 logger.warning("While decompiling, tried to generate break_loop; outside loop!")
                 raise FallbackToJump()
+            self.decompiler.source_map_add_opcode_for_edge(self.start_vertex["op"].offset)
+            self.decompiler.write_stmnt("break_loop;")
             # Make sure the forever start block is aware of the next vertex!
             self.decompiler.forever_start_handler_stack[-1].set_vertex_after(exits[0].target_vertex)
             return None
